@@ -191,6 +191,10 @@ type Conn struct {
 	// It comes after closed, which is used with 64-bit atomics and has to stay
 	// at an offset that is a multiple of 8 on 32-bit platforms.
 	block headerBlock
+
+	// writeBounded is set while the socket carries a write deadline put there
+	// for the write in progress (boundWrite); the next write clears both.
+	writeBounded int32
 }
 
 // setLastErr records the error that ended the connection, keeping the first one
@@ -531,6 +535,11 @@ func (c *Conn) Close() error {
 
 	fr.SetBody(ga)
 
+	// The write loop may be holding bwLck in a write to a peer that has
+	// stopped reading. Closing must not wait for that peer: the write in
+	// progress, and the GOAWAY after it, get a limited time.
+	c.boundWrite()
+
 	c.bwLck.Lock()
 
 	_, err := fr.WriteTo(c.bw)
@@ -750,8 +759,38 @@ func (c *Conn) runWriteLoop() (lastErr error) {
 	}
 }
 
-func (c *Conn) writeFrame(fr *FrameHeader) error {
+// writeGrace is how long a socket write gets to finish once somebody is
+// waiting for what it holds (see Ctx.lock and Close).
+const writeGrace = 2 * time.Second
+
+// boundWrite gives the socket write that is in progress, if there is one,
+// writeGrace to finish. The deadline is the in-progress write's alone: the next
+// write takes it off again (lockWrites).
+func (c *Conn) boundWrite() {
+	if c.c == nil {
+		return
+	}
+
+	// Deadline first, mark second: a write that starts in between keeps the
+	// deadline, which does it no harm, and the one after it clears it. The
+	// other way round a clearing could slip in before the deadline is set, and
+	// the deadline would stay for good.
+	_ = c.c.SetWriteDeadline(time.Now().Add(writeGrace))
+
+	atomic.StoreInt32(&c.writeBounded, 1)
+}
+
+// lockWrites takes the write lock for a new write.
+func (c *Conn) lockWrites() {
 	c.bwLck.Lock()
+
+	if atomic.CompareAndSwapInt32(&c.writeBounded, 1, 0) {
+		_ = c.c.SetWriteDeadline(time.Time{})
+	}
+}
+
+func (c *Conn) writeFrame(fr *FrameHeader) error {
+	c.lockWrites()
 	defer c.bwLck.Unlock()
 
 	_, err := fr.WriteTo(c.bw)
@@ -1216,7 +1255,7 @@ func (c *Conn) writeRequest(ctx *Ctx) error {
 		c.sendLck.Unlock()
 	}
 
-	c.bwLck.Lock()
+	c.lockWrites()
 
 	err := c.writeHeaderBlock(fr, h)
 	if err == nil {
@@ -1449,7 +1488,7 @@ func (c *Conn) sendPending(id uint32) error {
 // that sendPending's loop does not hold bwLck across a Read on the caller's
 // body stream.
 func (c *Conn) flushData(id uint32, body []byte, end bool) error {
-	c.bwLck.Lock()
+	c.lockWrites()
 	defer c.bwLck.Unlock()
 
 	err := c.writeData(id, body, end)
@@ -1696,7 +1735,7 @@ func (c *Conn) writePing() error {
 
 	fr.SetBody(ping)
 
-	c.bwLck.Lock()
+	c.lockWrites()
 	defer c.bwLck.Unlock()
 
 	_, err := fr.WriteTo(c.bw)
